@@ -1,10 +1,279 @@
-"""Suites on the in-process broker (net.Pipe clients against the real connection manager, packet processor, writer,
-message log, replicated state) shared by C01, C02, C03, C05, C07, C11, C12, C13, C14, C17, C18. Filled in as the broker harness grows."""
+"""Scenario generator and oracles for the in-process broker (domain `broker`): net.Pipe clients against the real
+connection manager, packet processor, publish distributor, writer, ack queue, replicated state and gRPC MQTTServer of
+1-3 nodes, compared op by op with the Lean model Wasp.Broker and judged by a small reference oracle.
+
+The oracle is deliberately simple: it only speaks where the cluster is CONVERGED (all gossip delivered before the
+op), where MQTT semantics determine the packets each client must see:
+  publish -> one PUBLISH per matching active subscription of each live session in the publisher's mount point (QoS of the
+             subscription, retain 0, publisher's topic), PUBACK/PUBREC/PUBCOMP to the publisher, nothing to anybody else;
+  subscribe -> SUBACK, then one retained PUBLISH (retain 1) per matching retained topic and filter;
+  session end -> will published iff the session did not DISCONNECT; CLOSED only for the ended session.
+"""
+import re
+from checklib import Suite
+from checks.trielib import mqtt_match
+
+FILTERS = ["a", "a/b", "a/#", "+/b", "#", "+", "a/+", "b/#", "a//b", "+/+", "/a", "a/b/c", "w/#"]
+TOPICS = ["a", "a/b", "b", "b/b", "a/b/c", "a//b", "/a", "a/", "w/t"]
+MOUNTS = ["mp", "mq", "mr"]
+
+
+def parse_out(line):
+    res, _, rest = line.partition(" | ")
+    clients = {}
+    for m in re.finditer(r"(\S+?):\[([^\]]*)\]", rest):
+        clients[m.group(1)] = m.group(2).split(" ") if m.group(2) else []
+    return res, clients
+
+
+def strip_mid(p):
+    p = re.sub(r",m=#\d+\)$", ")", p)
+    p = re.sub(r"^pubrel\((#|raw)\d+\)$", "pubrel", p)
+    return p
+
+
+def pubstr(topic, payload, qos, retain, dup):
+    return f"publish(t={topic},p={payload if payload else '-'},q={qos},r={retain},d={dup})"
+
+
+class Scenario:
+    def __init__(self, rng, nnodes, mounts=1, settle=None):
+        self.rng = rng
+        self.nn = nnodes
+        self.ops = [f"reset {nnodes}"]
+        self.exp = {}        # op index -> (dict client -> sorted list of stripped packets, rule)
+        self.clients = {}    # name -> dict
+        self.retained = {}   # (mount, topic) -> (payload, qos, dup)
+        self.mounts = MOUNTS[:mounts]
+        self.k = 0
+        self.mid = 10
+        self.dirty = False   # gossip pending
+
+    # ---- helpers
+    def emit(self, op, expect=None, rule="unexpected-packets"):
+        self.ops.append(op)
+        if expect is not None:
+            self.exp[len(self.ops) - 1] = ({c: sorted(v) for c, v in expect.items() if v}, rule)
+
+    def gossip(self):
+        if self.nn > 1:
+            self.emit("gossip", {})
+        self.dirty = False
+
+    def alive(self):
+        return [c for c, v in self.clients.items() if v["alive"]]
+
+    def deliveries(self, mount, topic, payload, dup, retain=0):
+        out = {}
+        for c, v in self.clients.items():
+            if not v["alive"] or v["mount"] != mount:
+                continue
+            for f, q in v["subs"].items():
+                if mqtt_match(f.split("/"), topic.split("/")):
+                    out.setdefault(c, []).append(pubstr(topic, payload, q, retain, dup))
+        return out
+
+    def ack_receivers(self, deliv):
+        for c in sorted(deliv):
+            q2 = sum(1 for p in deliv[c] if ",q=2," in p)
+            if any(",q=1," in p or ",q=2," in p for p in deliv[c]):
+                self.emit(f"ackall {c}", {c: ["pubrel"] * q2}, "handshake")
+
+    # ---- ops
+    def connect(self, node=None, mount=None, will=None, cid=None, keepalive=60, name=None):
+        self.k += 1
+        name = name or f"c{self.k}"
+        node = self.rng.randrange(self.nn) if node is None else node
+        mount = mount or self.rng.choice(self.mounts)
+        cid = cid or f"id{self.k}"
+        spec = "-"
+        if will:
+            spec = f"{will[0]}:{will[1]}:{will[2]}:{will[3]}"
+        self.clients[name] = {"node": node, "mount": mount, "cid": cid, "will": will, "subs": {}, "alive": True}
+        self.emit(f"connect {name} {node} {cid} {mount} {keepalive} {spec}", {name: ["connack(0)"]}, "connect")
+        self.gossip()
+        return name
+
+    def sub(self, c, filters):
+        self.mid += 1
+        v = self.clients[c]
+        exp = [f"suback({self.mid};{','.join(str(q) for _, q in filters)})"]
+        for f, q in filters:
+            v["subs"][f] = q
+        for f, q in filters:
+            for (m, t), (pl, rq, dup) in self.retained.items():
+                if m == v["mount"] and mqtt_match(f.split("/"), t.split("/")):
+                    exp.append(pubstr(t, pl, q, 1, dup))
+        self.emit(f"sub {c} {self.mid} " + ",".join(f"{f if f else '~'}:{q}" for f, q in filters), {c: exp}, "subscribe-replay")
+        self.ack_receivers({c: exp})
+        self.gossip()
+
+    def unsub(self, c, filters):
+        self.mid += 1
+        for f in filters:
+            self.clients[c]["subs"].pop(f, None)
+        self.emit(f"unsub {c} {self.mid} " + ",".join(f if f else "~" for f in filters), {c: [f"unsuback({self.mid})"]}, "unsubscribe")
+        self.gossip()
+
+    def pub(self, c, topic, payload, qos, retain=0, dup=0):
+        self.mid += 1
+        mid = self.mid
+        v = self.clients[c]
+        deliv = self.deliveries(v["mount"], topic, payload, dup)
+        if retain:
+            if payload in ("", "-"):
+                self.retained.pop((v["mount"], topic), None)
+            else:
+                self.retained[(v["mount"], topic)] = (payload, qos, dup)
+        op = f"pub {c} {topic if topic else '~'} {payload if payload else '-'} {qos} {retain} {dup} {mid}"
+        if qos == 2:
+            self.emit(op, {c: [f"pubrec({mid})"]}, "qos2-forwarded-early")
+            exp = {k: list(x) for k, x in deliv.items()}
+            exp.setdefault(c, []).append(f"pubcomp({mid})")
+            self.emit(f"rawack {c} pubrel {mid}", exp, "delivery")
+        else:
+            exp = {k: list(x) for k, x in deliv.items()}
+            if qos == 1:
+                exp.setdefault(c, []).append(f"puback({mid})")
+            self.emit(op, exp, "delivery")
+        self.ack_receivers(deliv)
+        if retain:
+            self.gossip()
+        return deliv
+
+    def end(self, c, how):
+        """how: disconnect | drop"""
+        v = self.clients[c]
+        v["alive"] = False
+        exp = {c: ["CLOSED"]}
+        deliv = {}
+        if how == "drop" and v["will"]:
+            t, pl, q, r = v["will"]
+            deliv = self.deliveries(v["mount"], t, pl, 0)
+            if r:
+                if pl in ("", "-"):
+                    self.retained.pop((v["mount"], t), None)
+                else:
+                    self.retained[(v["mount"], t)] = (pl, q, 0)
+            for k, x in deliv.items():
+                exp.setdefault(k, []).extend(x)
+        self.emit(f"{how} {c}", exp, "session-end")
+        self.ack_receivers(deliv)
+        self.gossip()
+
+    def check_state(self):
+        """at quiescence every node lists exactly the live sessions and their subscriptions"""
+        ss = sorted(f"S,S{c},{v['cid']},{v['mount']},{v['node'] + 1},{self._will(v)}" for c, v in self.clients.items() if v["alive"])
+        us = sorted(f"U,S{c},{v['mount']}/{f},{v['node'] + 1},{q}" for c, v in self.clients.items() if v["alive"] for f, q in v["subs"].items())
+        rs = sorted(f"R,{m}/{t},{pl},{q},1" for (m, t), (pl, q, d) in self.retained.items())
+        for n in range(self.nn):
+            reg = sorted("S" + c for c, v in self.clients.items() if v["alive"] and v["node"] == n)
+            line = "[" + " ".join(ss) + "] [" + " ".join(us) + "] [" + " ".join(rs) + "] [" + " ".join(reg) + "]"
+            self.ops.append(f"state {n}")
+            self.exp[len(self.ops) - 1] = (line, "state-after-quiescence")
+
+    def _will(self, v):
+        if not v["will"]:
+            return "-"
+        t, pl, q, r = v["will"]
+        return f"{t}:{pl if pl else '-'}:{q}:{r}"
+
+
+def monitor_for(scenarios_exp):
+    """scenarios_exp: op index -> (expected, rule)"""
+    def mon(ops, impl):
+        out = []
+        for i, (exp, rule) in scenarios_exp.items():
+            line = impl[i]
+            if line.startswith("panic") or line == "<no-output>":
+                out.append((i, "harness-crash", f"`{ops[i]}` -> {line}"))
+                continue
+            if isinstance(exp, str):
+                if line != exp:
+                    out.append((i, rule, f"`{ops[i]}` = {line}; the live sessions, their subscriptions and the retained messages are {exp}"))
+                continue
+            res, got = parse_out(line)
+            got = {c: sorted(strip_mid(p) for p in v) for c, v in got.items() if v}
+            if got != exp:
+                diffs = []
+                for c in sorted(set(got) | set(exp)):
+                    g, e = got.get(c, []), exp.get(c, [])
+                    if g != e:
+                        miss = [x for x in e if x not in g or g.count(x) < e.count(x)]
+                        extra = [x for x in g if x not in e or e.count(x) < g.count(x)]
+                        diffs.append(f"{c}: missing {sorted(set(miss))} unexpected {sorted(set(extra))}")
+                out.append((i, rule, f"`{ops[i]}`: " + "; ".join(diffs)[:600]))
+        return out
+    return mon
+
+
+def gen_converged(rng, nn, mounts, nops, weights=None):
+    """a random converged scenario; returns Scenario"""
+    sc = Scenario(rng, nn, mounts)
+    w = {"connect": 2, "sub": 4, "unsub": 1, "pub": 6, "end": 1, "state": 0.5}
+    if weights:
+        w.update(weights)
+    for _ in range(rng.choice([2, 3])):
+        will = rng.choice([None, None, ("w/t", rng.choice(["dead", "00"]) if False else rng.choice(["6465", "00"]), rng.choice([0, 1]), rng.choice([0, 1]))])
+        sc.connect(will=will)
+    kinds = list(w)
+    for _ in range(nops):
+        k = rng.choices(kinds, [w[x] for x in kinds])[0]
+        alive = sc.alive()
+        if k == "connect" or not alive:
+            if len(sc.clients) < 7:
+                will = rng.choice([None, ("w/t", rng.choice(["6465", "-"]), rng.choice([0, 1, 2]), rng.choice([0, 0, 1]))])
+                sc.connect(will=will)
+        elif k == "sub":
+            c = rng.choice(alive)
+            fl = rng.sample(FILTERS, rng.choice([1, 1, 2, 3]))
+            sc.sub(c, [(f, rng.choice([0, 1, 2])) for f in fl])
+        elif k == "unsub":
+            c = rng.choice(alive)
+            subs = list(sc.clients[c]["subs"])
+            fl = rng.sample(subs, min(len(subs), rng.choice([1, 2]))) if subs and rng.random() < 0.8 else [rng.choice(FILTERS)]
+            sc.unsub(c, fl)
+        elif k == "pub":
+            c = rng.choice(alive)
+            retain = 1 if rng.random() < 0.3 else 0
+            payload = rng.choice(["01", "0203", "ff"]) if not (retain and rng.random() < 0.3) else "-"
+            sc.pub(c, rng.choice(TOPICS), payload, rng.choice([0, 1, 1, 2]), retain, 0)
+        elif k == "end":
+            if len(alive) > 1:
+                sc.end(rng.choice(alive), rng.choice(["disconnect", "drop"]))
+        elif k == "state":
+            sc.check_state()
+    sc.check_state()
+    return sc
+
+
+def run_scenarios(c, name, scenarios, samples, extra_stats=None):
+    ops, exp = [], {}
+    for sc in scenarios:
+        base = len(ops)
+        ops += sc.ops
+        for i, e in sc.exp.items():
+            exp[base + i] = e
+    ops.append("bye")
+    st = {"cases": len(scenarios), "nontrivial": len(scenarios)}
+    if extra_stats:
+        st.update(extra_stats)
+    c.run_suite(Suite(name, "broker", ops, monitor_for(exp), st, resets=("reset",), retry_args=["200"]), timeout=3000)
+    samples.append({"suite": name, "ops": ops[:14]})
 
 
 def add_c01_suites(c, samples):
-    return
+    rng = c.rng
+    n = 12 if c.tier == "quick" else 150
+    scs = [gen_converged(rng, rng.choice([1, 1, 2]), 1, rng.choice([12, 20]), {"pub": 8, "sub": 5, "unsub": 2}) for _ in range(n)]
+    run_scenarios(c, "broker-publish-routing", scs, samples)
 
 
 def add_c07_suites(c, samples):
-    return
+    rng = c.rng
+    n = 10 if c.tier == "quick" else 120
+    scs = []
+    for _ in range(n):
+        sc = gen_converged(rng, rng.choice([1, 2]), 1, rng.choice([10, 16]), {"pub": 7, "sub": 6, "connect": 3})
+        scs.append(sc)
+    run_scenarios(c, "broker-retained-replay", scs, samples)
